@@ -100,8 +100,12 @@ func c07GenAdmit(r *rng) c07AdmitIn {
 		if g.Fpb != 0 && r.chance(35) && !hasR("outofgas") {
 			add("smallfee")
 		}
-		if g.ExecFee != 0 && r.chance(35) && !hasR("smallfee") {
-			add("outofgas")
+		if g.ExecFee != 0 && r.chance(45) {
+			// the probe ALONE (with another defect the transaction is refused for that reason and the threshold is not seen)
+			in.Respects = []string{"outofgas"}
+			if r.chance(30) {
+				in.Respects = append(in.Respects, "conf-ok")
+			}
 		}
 		if g.ConfFee != 0 && r.chance(50) {
 			add("conf-ok")
